@@ -39,6 +39,23 @@ func checkC11(e *Engine, r *Report) {
 		}
 		r.MinInstances("policy Sync obligations (shared with C09)", n, 6)
 	}
+	// what the policies re-assert during Synchronize reaches the runtime only because every cpuset/resource setter queues
+	// an update for an existing container, whatever the cached value was: the update-side dual-write obligations of the
+	// C05 check, adopted here (a setter that skips "unchanged" values leaves a runtime that drifted while the plugin was
+	// down out of step for good)
+	{
+		sub := NewReport(e, "C05")
+		checkC05(e, sub)
+		n := 0
+		for _, o := range sub.Obls {
+			if strings.HasPrefix(o.Key, "R1:dual-write[") && (strings.HasSuffix(o.Key, "-update") || strings.HasSuffix(o.Key, "#field-agreement")) {
+				n++
+				cp := *o
+				r.add(&cp)
+			}
+		}
+		r.MinInstances("setter update-side obligations (shared with C05)", n, 10)
+	}
 	// ---- rule 1 -------------------------------------------------------------------
 	if nrm := r.Anchor(pkgRM, "NewResourceManager"); nrm != nil {
 		sc, sp := e.Fn(pkgRM, "resmgr.setupCache"), e.Fn(pkgRM, "resmgr.setupPolicy")
